@@ -55,6 +55,23 @@ def explains (c : Cfg α) (tiers : List Nat) (eps : List (Ep α)) (h : Hit α) (
 def monTier (c : Cfg α) (tiers : List Nat) (eps : List (Ep α)) (hits : List (Hit α)) : Bool :=
   hits.all (fun h => eps.any (explains c tiers eps h))
 
+/-- Tier rule for results of the PARALLEL (sharded) path: as `tierOk`, except that membership in
+the globally chosen top-m clusters is waived — the fan-out chooses clusters per shard (recorded
+finding `C09:t2:cluster-tier-per-shard`), so only the recency window and the archive quarters are
+demanded there. -/
+def tierOkPar (c : Cfg α) (eps : List (Ep α)) (e : Ep α) (t : Nat) : Bool :=
+  match t with
+  | 1 => true
+  | _ => tierOk c eps e t
+
+def explainsPar (c : Cfg α) (tiers : List Nat) (eps : List (Ep α)) (h : Hit α) (e : Ep α) : Bool :=
+  e.id == h.id && e.ownerStr == h.owner && Num.beq e.cos h.score
+    && visible c.owner e
+    && passes c.θ e && tiers.any (tierOkPar c eps e)
+
+def monTierPar (c : Cfg α) (tiers : List Nat) (eps : List (Ep α)) (hits : List (Hit α)) : Bool :=
+  hits.all (fun h => eps.any (explainsPar c tiers eps h))
+
 /-- threshold on the observed scores themselves -/
 def monThreshold (c : Cfg α) (hits : List (Hit α)) : Bool :=
   hits.all (fun h => Num.le c.θ h.score)
